@@ -7,6 +7,7 @@ CONSTANTS
   Loop = "distance"
   Variant = "lib"
   SwapVariant = "aliased"
+  OrientStart = TRUE
   MaxEpaIter = 12
   RequireProperStart = TRUE
   ClosestTies = "first"
